@@ -186,6 +186,10 @@ type Op struct {
 	// ReuseOf > 0: this subscription request is not parsed afresh, the parsed request of the
 	// ReuseOf-th subscribe step (1-based) is resolved again (same selection, same id)
 	ReuseOf int `json:"reuse_of,omitempty"`
+	// Cond: the subscription field carries a condition that lets it through -
+	// include-default (@include(if: $v), $v: Boolean = true, no value given), skip-default
+	// (@skip(if: $w), $w: Boolean = false), include-given ($v given as true), include-literal
+	Cond string `json:"cond,omitempty"`
 }
 
 type c19Case struct {
@@ -246,6 +250,9 @@ func genCaseC19(rt *rapid.T) *c19Case {
 				op.Wildcard = true
 				op.Pattern = rapid.SampledFrom([]string{"a", "b", ""}).Draw(rt, lab+"prefix")
 			}
+			if rapid.IntRange(0, 3).Draw(rt, lab+"conditioned") == 0 {
+				op.Cond = rapid.SampledFrom([]string{"include-default", "skip-default", "include-given", "include-literal"}).Draw(rt, lab+"cond")
+			}
 			op.FailAt = rapid.SliceOfNDistinct(rapid.IntRange(1, 4), 0, 2, rapid.ID[int]).Draw(rt, lab+"failPlan")
 			op.Field = rapid.SampledFrom([]string{"watch", "listen"}).Draw(rt, lab+"field")
 			ret := "Event"
@@ -279,7 +286,7 @@ func genCaseC19(rt *rapid.T) *c19Case {
 									}
 								}
 							}
-							op.Pattern, op.Wildcard, op.Sels, op.Frags, op.Field = prev.Pattern, prev.Wildcard, prev.Sels, prev.Frags, prev.Field
+							op.Pattern, op.Wildcard, op.Sels, op.Frags, op.Field, op.Cond = prev.Pattern, prev.Wildcard, prev.Sels, prev.Frags, prev.Field, prev.Cond
 							break
 						}
 					}
@@ -394,6 +401,25 @@ func runHistory(cc *c19Case) (ds []hx.Discrepancy, traits map[string]bool, hist 
 			}
 			doc := &hx.Doc{Ops: []*hx.Op{{Type: "subscription", Name: "S", Sels: []*hx.Sel{{Kind: "field", Name: op.Field,
 				Args: []hx.KV{{Key: "id", V: hx.Str(h.pattern)}}, Sels: h.sels}}}}, Frags: h.frags}
+			var subVars map[string]interface{}
+			yes, no := hx.Bool(true), hx.Bool(false)
+			switch op.Cond {
+			case "include-default":
+				doc.Ops[0].Vars = []*hx.VarDef{{Name: "v", Type: hx.Named("Boolean"), Default: &yes}}
+				doc.Ops[0].Sels[0].Dirs = []hx.DirUse{{Name: "include", Args: []hx.KV{{Key: "if", V: hx.VarV("v")}}}}
+			case "skip-default":
+				doc.Ops[0].Vars = []*hx.VarDef{{Name: "w", Type: hx.Named("Boolean"), Default: &no}}
+				doc.Ops[0].Sels[0].Dirs = []hx.DirUse{{Name: "skip", Args: []hx.KV{{Key: "if", V: hx.VarV("w")}}}}
+			case "include-given":
+				doc.Ops[0].Vars = []*hx.VarDef{{Name: "v", Type: hx.Named("Boolean")}}
+				doc.Ops[0].Sels[0].Dirs = []hx.DirUse{{Name: "include", Args: []hx.KV{{Key: "if", V: hx.VarV("v")}}}}
+				subVars = map[string]interface{}{"v": true}
+			case "include-literal":
+				doc.Ops[0].Sels[0].Dirs = []hx.DirUse{{Name: "include", Args: []hx.KV{{Key: "if", V: yes}}}}
+			}
+			if op.Cond != "" {
+				traits["conditioned-subscription-field"] = true
+			}
 			doc.Number()
 			text := doc.Render(hx.Layout{Mode: "single"}).Text
 			pending = h
@@ -401,7 +427,7 @@ func runHistory(cc *c19Case) (ds []hx.Discrepancy, traits map[string]bool, hist 
 			var res map[string]interface{}
 			if op.ReuseOf > 0 && op.ReuseOf <= len(exes) && exes[op.ReuseOf-1] != nil {
 				traits["parsed-subscription-request-resolved-again"] = true
-				r2, rerr := w.Root.ResolveExecutable(exes[op.ReuseOf-1], "S", nil)
+				r2, rerr := w.Root.ResolveExecutable(exes[op.ReuseOf-1], "S", subVars)
 				res = r2
 				if res == nil {
 					res = map[string]interface{}{}
@@ -418,7 +444,7 @@ func runHistory(cc *c19Case) (ds []hx.Discrepancy, traits map[string]bool, hist 
 					break
 				}
 				exes = append(exes, exe)
-				r2, rerr := w.Root.ResolveExecutable(exe, "S", nil)
+				r2, rerr := w.Root.ResolveExecutable(exe, "S", subVars)
 				res = r2
 				if res == nil {
 					res = map[string]interface{}{}
